@@ -1779,7 +1779,12 @@ class RepeatingEngine(Engine):
                         isNewOutput = self.job.producersHaveOutputSinceDate(self.lastLaunched)
                     else:
                         time_waiting = (datetime.datetime.now() - self.lastLaunched).total_seconds()
-                        if time_waiting > 20.0:
+                        if self._stateDict['numberTaskLaunches'] == 0:
+                            # VV: The producers are done and this engine has never executed, whatever the producers
+                            # generated before this engine started is new to it. Execute (at least) once.
+                            self.log.log(19, "All of my producers are done and I have never executed")
+                            isNewOutput = True
+                        elif time_waiting > 20.0:
                             # VV: FIXME We should consult the graph to figure out whether the producers have
                             #     finished rstage-outing their output files.
                             self.log.log(19, "I have waited for too long for my Finished producers to produce output")
